@@ -1,0 +1,6 @@
+//go:build !verif
+
+package nodes
+
+// verifJoinMessageReceived is a verification hook; without the `verif` build tag it does nothing.
+func verifJoinMessageReceived(side int) {}
